@@ -310,11 +310,16 @@ Proof.
 Qed.
 
 (** * 3. the executable statement of the byte loader line holds of the model's own output *)
-Lemma check_bloader_run : forall v, check_loader v (run_bloader v) = true \/ run_bloader v = v_outside
-  \/ run_bloader v = v_panic \/ run_bloader v = L [I (-4)%Z].
+Lemma check_bloader_run_with : forall opq unm v,
+  check_loader v (run_bloader_with opq unm v) = true \/ run_bloader_with opq unm v = v_outside
+  \/ run_bloader_with opq unm v = v_panic \/ run_bloader_with opq unm v = L [I (-4)%Z].
 Proof.
-  intros v. unfold run_bloader.
-  destruct (negb (pcfg_dom _) || negb (qpcfg_dom _) || p_has_unmodelled _ || qp_has_opaque _); [right; left; reflexivity|].
+  intros opq unm v. unfold run_bloader_with.
+  destruct (negb (pcfg_dom _) || negb (qpcfg_dom _) || unm _ || qp_has_opaque _); [right; left; reflexivity|].
   destruct (v_task (v_nth 6 v)) as [t|]; [|left; reflexivity].
   destruct (loader_run_tb _ _ _ _ _ _ _ _ _ _ _ _ _ _ _ _ _ _ _ _) as [m bs| | |]; auto.
 Qed.
+
+Lemma check_bloader_run : forall v, check_loader v (run_bloader v) = true \/ run_bloader v = v_outside
+  \/ run_bloader v = v_panic \/ run_bloader v = L [I (-4)%Z].
+Proof. intros v. apply check_bloader_run_with. Qed.
